@@ -1083,6 +1083,10 @@ func conform(ms *models, sc Scn, o *runOut) (bad string) {
 	return ""
 }
 
+// lim: at most 2 shrunk reports per kind and 12 per kind-prefix class (own kinds / c08- / c09- /
+// correspondence): failures of one class never use up the room, or the time, of another.
+var lim = vlib.NewClassLimiter(2, 12)
+
 func runScn(t *testing.T, ms *models, res *vlib.Result, sc Scn, shrink bool) (monitorFailed bool) {
 	o := exec(t, sc)
 	res.Count("fam." + sc.Fam)
@@ -1100,6 +1104,9 @@ func runScn(t *testing.T, ms *models, res *vlib.Result, sc Scn, shrink bool) (mo
 	res.Case(sc.key(), nontrivial, nil)
 	for _, f := range o.finds {
 		monitorFailed = true
+		if !lim.Admit("monitor", f.kind) {
+			continue
+		}
 		small := sc
 		if shrink {
 			small.Steps = vlib.Shrink(sc.Steps, func(steps []Step) bool {
@@ -1116,7 +1123,7 @@ func runScn(t *testing.T, ms *models, res *vlib.Result, sc Scn, shrink bool) (mo
 		}
 		res.Fail(vlib.Failure{Source: "monitor", Kind: f.kind, Params: f.params, What: f.what, Case: small})
 	}
-	if bad := conform(ms, sc, o); bad != "" {
+	if bad := conform(ms, sc, o); bad != "" && lim.Admit("correspondence", sc.Fam+"-trace-not-in-model") {
 		small := sc
 		if shrink {
 			small.Steps = vlib.Shrink(sc.Steps, func(steps []Step) bool {
@@ -1130,7 +1137,7 @@ func runScn(t *testing.T, ms *models, res *vlib.Result, sc Scn, shrink bool) (mo
 		}
 		res.Fail(vlib.Failure{Source: "correspondence", Kind: sc.Fam + "-trace-not-in-model",
 			Params: map[string]interface{}{"inputs": sc.N}, What: bad, Case: small})
-	} else if conformable(sc) && ms.forFam(sc.Fam) != nil {
+	} else if bad == "" && conformable(sc) && ms.forFam(sc.Fam) != nil {
 		res.Traces++
 	}
 	if o.leak != "" && len(o.finds) == 0 {
@@ -1497,11 +1504,10 @@ func TestVerif(t *testing.T) {
 			runScn(t, ms, res, genRepl(r.Fork(), n), true)
 		}
 	}
-	fails := 0
-	for c := 0; c < maxCases && time.Now().Before(deadline) && fails < 12; c++ {
-		if runScn(t, ms, res, genAny(r.Fork()), true) {
-			fails++
-		}
+	// no early stop on failures: a pile of failures of one kind-prefix class must not keep the
+	// scenarios that violate another class from being generated (the limiter bounds the shrinking)
+	for c := 0; c < maxCases && time.Now().Before(deadline); c++ {
+		runScn(t, ms, res, genAny(r.Fork()), true)
 	}
 	if ms.missing != "" {
 		res.ModelMissing = ms.missing
